@@ -17,6 +17,12 @@ fn check_name(s: &str, r: &mut CaseResult) {
             return;
         }
     }
+    // the convenience triple must be the same three reference hashes
+    let (ha, hb, ho) = crypto::calculate_mpq_hashes(s);
+    if (ha, hb, ho) != (mpqcrypt::hash_name(b, 1), mpqcrypt::hash_name(b, 2), mpqcrypt::hash_name(b, 0)) {
+        r.viol("calculate_mpq_hashes differs from the reference MPQ hash", format!("name={:?} got=({ha:#010x},{hb:#010x},{ho:#010x})", s));
+        return;
+    }
     // fold invariance (ASCII case, slash direction)
     let up = s.to_ascii_uppercase();
     let lo = s.to_ascii_lowercase();
